@@ -29,7 +29,8 @@ SPEC = {'id': 'C02',
          'unknown ids / duplicated, two timeout generations) whose annotated event list is replayed on the Lean model, '
          "plus forced-race schedules (timer between two lock acquisitions, forced with the package's own "
          'snowflakeLock) compared with explicit label traces; non-trivial = at least one event; distinct = distinct '
-         '(class, event list)',
+         '(class, event list)'
+         " Fingerprints of both legal lengths; some 32-byte fingerprints extend another bridge's 20-byte fingerprint.",
  'level_text': "Kernel-checked invariants over every reachable state of an interleaving model of the broker's "
                'rendezvous core (unbounded numbers of polls, clients, answers, all interleavings, all timer firings, '
                "all bridge lists): a returned answer was posted for the session that was handed this client's offer; "
